@@ -5,7 +5,7 @@ from checks import engine as en
 def run(tier):
     chk = vtlib.Check("C14", tier, "model_checking")
     thorough = tier == "thorough"
-    base = ["flat3", "deep3", "orthoroot", "nestedortho", "strat3"] + (["mixed14", "headless", "wide5"] if thorough else [])
+    base = ["flat3", "deep3", "orthoroot", "nestedortho"] + (["strat3", "mixed14", "headless", "wide5"] if thorough else [])
     progs = []
     for pay in ("int", "fat", "over"):
         progs += en.curated(names=base if pay == "int" or thorough else base[:3], payload=pay)
@@ -16,7 +16,7 @@ def run(tier):
         p.args = ["--mode", "plans", "--classes", str(en.cls("STATUS", "PLANRESULT")), "--dev", "2", "--batch", "1"]
         p.label += "/plans"
     args = ["--tier", tier, "--dev", "2" if thorough else "1", "--batch", "2", "--classes", str(en.cls("REQ", "GUARD")),
-            "--dev-immediate", "1", "--imm-reduced", "1", "--deadline", str(1500 if thorough else 150)]
+            "--dev-immediate", "1", "--imm-reduced", "1", "--deadline", str(1500 if thorough else 90)]
     res = en.run_all(chk, "C14", progs + plan_progs, args, timeout=(2400 if thorough else 400))
     en.aggregate(chk, res, "C14")
     chk.coverage["explanation"] = (
